@@ -326,6 +326,22 @@ def spec_end_block(old, self, token, result):
             and len(self.tree.openElements) < len(old.self.tree.openElements))
 
 
+# --- </li> (list item scope), </dd>, </dt> (scope): parse error unless in scope; else implied end tags except for the
+#     element, then pop up to and including it
+def spec_end_list_item(old, self, token, result):
+    variant = "list" if token["name"] == "li" else "None"
+    if not stack_in_scope(token["name"], variant, old.self.tree.openElements):
+        return result is None and ops_are(self, []) and grew_by(old, self, 0)
+    return (result is None and ops_are(self, [("implied", token["name"])])
+            and len(self.tree.openElements) < len(old.self.tree.openElements))
+
+
+# --- image: parse error; "change the token's tag name to img and reprocess it" (don't ask)
+def spec_image(old, self, token, result):
+    ops = self.ghost_ops
+    return result is None and len(ops) == 1 and ops[0] == ("call", "processStartTag", "img")
+
+
 HANDLERS = [
     ("startTagCloseP", ["address", "article", "aside", "blockquote", "center", "details", "dir", "div", "dl", "fieldset",
                         "figcaption", "figure", "footer", "header", "hgroup", "main", "menu", "nav", "ol", "p", "section",
@@ -356,6 +372,8 @@ HANDLERS = [
     ("startTagInput", ["input"], spec_input),
     ("endTagP", ["p"], spec_end_p),
     ("endTagBr", ["br"], spec_end_br),
+    ("endTagListItem", ["li", "dd", "dt"], spec_end_list_item),
+    ("startTagImage", ["image"], spec_image),
     ("endTagBlock", ["address", "article", "aside", "blockquote", "button", "center", "details", "dialog", "dir", "div", "dl",
                      "fieldset", "figcaption", "figure", "footer", "header", "hgroup", "listing", "main", "menu", "nav", "ol",
                      "pre", "section", "summary", "ul"], spec_end_block),
